@@ -78,6 +78,7 @@ Inductive case :=
 | CGen (cfg : list (str * scfg)) (files : list (list item)) (builtins : list item) (r : ogen_result)
 | CDet (how : N) (digests : list N)
 | CPerm (v1 v2 : str) (c1 c2 : list (str * N))
+| CPermV (v1 v2 : str) (k1 k2 : list (str * N))    (* verdict stage and multiset of diagnostic kinds of two arrangements *)
 | CLibCli (lib_ok cli_ok : bool) (d1 d2 : list N).
 
 (** the string maps used by the harness for [Schema::map_str] *)
@@ -154,7 +155,7 @@ Definition agree (c : case) : bool :=
   | CGen cfg files builtins r =>
       gen_agree (gen o_id o_id (hm_collect cfg) files builtins) r
       && gen_agree (gen o_rot o_rev (hm_collect cfg) files builtins) r
-  | CDet _ _ | CPerm _ _ _ _ | CLibCli _ _ _ _ => true
+  | CDet _ _ | CPerm _ _ _ _ | CPermV _ _ _ _ | CLibCli _ _ _ _ => true
   end.
 
 (* ---------- the property on the implementation's outputs ---------- *)
@@ -260,6 +261,7 @@ Definition holds (c : case) : bool :=
   | CDet _ digests => all_equal digests
   | CPerm v1 v2 c1 c2 =>
       str_eqb v1 v2 && (if str_eqb v1 (s "ok") then list_eqb (pair_eqb str_eqb N.eqb) c1 c2 else true)
+  | CPermV v1 v2 k1 k2 => str_eqb v1 v2 && list_eqb (pair_eqb str_eqb N.eqb) k1 k2
   | CLibCli lib_ok cli_ok d1 d2 =>
       Bool.eqb lib_ok cli_ok && (if lib_ok then list_eqb N.eqb d1 d2 else true)
   end.
